@@ -6,7 +6,7 @@
 #include "slu_mt_@p@defs.h"
 extern int g_blas, g_asum, g_amax, g_copy;
 extern int_t @p@lacon_(int_t *, @T@ *, @T@ *, int_t *, @R@ *, int_t *);
-int_t g_i; @T@ g_x1[CAP];
+int_t g_i; @T@ g_x1[CAP]; @T@ nondet_val(void);
 int_t in_n, in_kase, in_isgn[CAP]; @T@ in_v[CAP], in_x[CAP]; @R@ in_est;
 void h_lacon_jump(void) {
   __CPROVER_assume(1 <= in_n && in_n <= CAP && in_kase == 0 && 0 <= g_i && g_i < in_n && g_blas == 0 && g_asum == 0 && g_amax == 0 && g_copy == 0);
@@ -19,6 +19,18 @@ void h_lacon_jump(void) {
   __CPROVER_assert(in_n == 1 ? (g_asum == 0 && in_kase == 0) : (g_asum == 1 && in_kase == 2), "second call enters at L20: order 1 finishes at once, otherwise one ?asum_ and kase 2");
   __CPROVER_assert(in_n == 1 ? (in_v[0] == g_x1[0] && in_est == __CPROVER_fabs(g_x1[0])) : (in_x[g_i] == 1 && in_isgn[g_i] == 1), "second call enters at L20: v = x and est = |x| for order 1, otherwise x and isgn hold the sign vector of 1/n");
   __CPROVER_assert(0, "canary: lacon returns from the second call");
+  /* C18: the whole estimate, from ANY static state left by earlier estimates: the caller overwrites x with A*x (resp. A'*x) -- any numbers --
+   * and calls again until kase == 0.  ITMAX = 5 bounds the iterations of ONE estimate, so a fresh estimate ends within 12 further calls
+   * whatever the function-static iteration counter held before the starting call (seed C18d: the counter was re-armed by a static
+   * initialiser only, later estimates inherited the iterations spent by earlier ones). */
+  { int calls = 0;
+    for (int r = 0; r < 12; r++) if (in_kase != 0) {
+      for (int k = 0; k < CAP; k++) { @T@ t = nondet_val(); __CPROVER_assume(t == t && -1e30 < t && t < 1e30); in_x[k] = t; }
+      @p@lacon_(&in_n, in_v, in_x, in_isgn, &in_est, &in_kase); calls++;
+    }
+    __CPROVER_assert(in_kase == 0, "a fresh estimate ends within ITMAX iterations (<= 14 calls) whatever earlier estimates left in the static state");
+    if (calls >= 5) __CPROVER_assert(0, "canary: an estimate with at least 7 calls");
+  }
   if (in_n == 1) __CPROVER_assert(0, "canary: second call, order 1");
   if (in_n == CAP && g_i == CAP - 1) __CPROVER_assert(0, "canary: second call, full order");
 }
